@@ -17,9 +17,26 @@ Theorem C06_calls : forall w st c req clid m args st' r e,
    (clid < 0 /\ exists o, exported st c clid o /\ e = ECallable o) \/
    (0 < clid /\ exists o s, exported st c clid o /\ m = MStr s /\ e = EObj o (remote_prefix ++ s) /\
         In (remote_prefix ++ s)%string (o_attrs (w_obj w o)) /\
-        (forall l, o_iface (w_obj w o) = Some l -> In s l))).
+        (forall l, iface_of w (s_decl st) o = Some l -> In s l))).
 Proof. exact calls_sound. Qed.
 Print Assumptions C06_calls.
+
+(* "only through methods exposed for remote use", per instance: the RemoteInterface an object exposes is the one its class
+   declares or else the one declared on the instance itself (zope directlyProvides / alsoProvides; translated:
+   getInterface() evaluates getRemoteInterface(self) per instance), and only its methods are entered ... *)
+Theorem C06_instance_interface_enforced : forall w st c req clid m args st' r o a l,
+  step w st (Msg c req clid m args) = (st', r) -> r_out r = Enter (EObj o a) ->
+  match o_iface (w_obj w o) with Some l' => Some l' | None => zget o (s_decl st) end = Some l ->
+  exists s, m = MStr s /\ a = (remote_prefix ++ s)%string /\ In s l.
+Proof. exact instance_interface_enforced. Qed.
+Print Assumptions C06_instance_interface_enforced.
+
+(* ... and what an instance exposes is changed only by a declaration on that very instance: no use of any other object
+   (another instance of the same class, a subclass instance, on any connection, in any order) affects it *)
+Theorem C06_declaration_origin : forall w h st o l,
+  zget o (s_decl (fst (run w st h))) = Some l -> In (o, l) (s_decl st) \/ In (Declare o (Some l)) h.
+Proof. exact decl_origin. Qed.
+Print Assumptions C06_declaration_origin.
 
 (* "only through methods exposed for remote use": the prefix is the one read from Referenceable.doRemoteCall, and the
    broker exposes exactly the three RIBroker methods *)
